@@ -1,10 +1,13 @@
 //! C18 – totality / bounds of the EVM stack (interpreter/stack.rs, contains `unsafe`).
 //!
-//! Every harness builds a REAL `Stack` with real `push` calls: `d` symbolic values
-//! `vals[0..d]` are pushed, `vals[0]` deepest, `vals[d-1]` on top.  The depth `d` is symbolic
-//! in a small window around the interesting boundary (a fully symbolic depth 0..=1024 is far
-//! beyond CBMC: measured crash at 13 GB).  CBMC's pointer checks (dereference of dead /
-//! out-of-bounds / deallocated objects) are active for the `unsafe` blocks.
+//! Every harness builds a REAL `Stack` with real `push` calls: `d` fully symbolic 256-bit
+//! values `vals[0..d]` are pushed, `vals[0]` deepest, `vals[d-1]` on top.  The depth `d` is
+//! ENUMERATED over a small window around the interesting boundary (every d in 0..=S+1 for
+//! pop_many::<S>) by a loop with a concrete counter: a symbolic `d` makes the Vec length and
+//! every heap offset symbolic and CBMC runs out of 12 GB even for d <= 4 (measured), and a
+//! symbolic depth 0..=1024 crashed at 13 GB.  The set of (depth, contents) states covered is
+//! the same.  CBMC's pointer checks (dereference of dead / out-of-bounds / deallocated
+//! objects) are active for the `unsafe` blocks.
 //!
 //! Order returned by `pop_many::<S>()`: a reference to the S top-most items in STACK-BOTTOM-
 //! FIRST order, i.e. `r[0]` is the deepest of the S items (Yellow Paper µs[S-1]) and `r[S-1]`
@@ -67,10 +70,8 @@ pub fn drain_equals<const N: usize>(s: &mut Stack, vals: &[U256; N], d: usize) {
     assert!(s.is_empty());
 }
 
-fn pop_many_case<const S: usize>() {
+fn pop_many_case<const S: usize>(d: usize) {
     let vals: [U256; MAXV] = any_vals();
-    let d: usize = kani::any();
-    kani::assume(d <= S + 1);
     let mut s = build(&vals, d);
     let out: Option<[U256; S]> = match s.pop_many::<S>() {
         Ok(r) => Some(*r),
@@ -98,8 +99,12 @@ fn pop_many_case<const S: usize>() {
             drain_equals(&mut s, &vals, d - S);
         }
     }
-    kani::cover!(out.is_some() && d == S + 1);
-    kani::cover!(out.is_none() || S == 0);
+    if d == S + 1 {
+        kani::cover!(out.is_some() && vals[0].0[3] != 0);
+    }
+    if d + 1 == S {
+        kani::cover!(out.is_none());
+    }
 }
 
 macro_rules! pop_many_harness {
@@ -107,7 +112,12 @@ macro_rules! pop_many_harness {
         #[kani::proof]
         #[kani::unwind($unw)]
         fn $name() {
-            pop_many_case::<$s>()
+            let mut d = 0;
+            while d <= $s + 1 {
+                pop_many_case::<$s>(d);
+                d += 1;
+            }
+            kani::cover!(d == $s + 2);
         }
     };
 }
@@ -121,14 +131,21 @@ pop_many_harness!(c18_stack_pop_many_5, 5, 10);
 pop_many_harness!(c18_stack_pop_many_6, 6, 10);
 pop_many_harness!(c18_stack_pop_many_7, 7, 10);
 
-/// `pop` / `drop` / `len` / `is_empty` on depth 0..=3: LIFO order, underflow error code,
-/// failed operation leaves the stack unchanged.
+/// `pop` / `drop` / `len` / `is_empty` on every depth 0..=3: LIFO order, underflow error
+/// code, a failed operation leaves the stack unchanged.
 #[kani::proof]
 #[kani::unwind(10)]
 fn c18_stack_pop_drop() {
+    let mut d = 0;
+    while d <= 3 {
+        pop_drop_case(d);
+        d += 1;
+    }
+    kani::cover!(d == 4);
+}
+
+fn pop_drop_case(d: usize) {
     let vals: [U256; MAXV] = any_vals();
-    let d: usize = kani::any();
-    kani::assume(d <= 3);
     let mut s = build(&vals, d);
     assert!(s.is_empty() == (d == 0));
     let use_drop: bool = kani::any();
@@ -157,18 +174,29 @@ fn c18_stack_pop_drop() {
             }
         }
     }
-    kani::cover!(d == 3 && use_drop);
-    kani::cover!(d == 0 && !use_drop);
+    if d == 3 {
+        kani::cover!(use_drop && vals[2].0[0] == 7);
+    }
+    if d == 0 {
+        kani::cover!(!use_drop);
+    }
 }
 
-/// `dup(i)` for symbolic depth 0..=5 and symbolic i in 1..=6: underflow iff i > depth (stack
+/// `dup(i)` for every depth 0..=5 and symbolic i in 1..=6: underflow iff i > depth (stack
 /// unchanged), otherwise depth+1 items, new top == item i-1 below the old top, rest unchanged.
 #[kani::proof]
 #[kani::unwind(10)]
 fn c18_stack_dup() {
+    let mut d = 0;
+    while d <= 5 {
+        dup_case(d);
+        d += 1;
+    }
+    kani::cover!(d == 6);
+}
+
+fn dup_case(d: usize) {
     let vals: [U256; MAXV] = any_vals();
-    let d: usize = kani::any();
-    kani::assume(d <= 5);
     let i: usize = kani::any();
     kani::assume(i >= 1 && i <= 6);
     let mut s = build(&vals, d);
@@ -186,18 +214,29 @@ fn c18_stack_dup() {
             drain_equals(&mut s, &vals, d);
         }
     }
-    kani::cover!(d == 5 && i == 5);
-    kani::cover!(d == 2 && i == 3);
+    if d == 5 {
+        kani::cover!(i == 5 && vals[0].0[1] == 9);
+    }
+    if d == 2 {
+        kani::cover!(i == 3);
+    }
 }
 
-/// `swap_top(i)` for symbolic depth 0..=5, symbolic i in 0..=6: underflow iff depth <= i
+/// `swap_top(i)` for every depth 0..=5, symbolic i in 0..=6: underflow iff depth <= i
 /// (unchanged), otherwise exchanges top with the item i below it and nothing else.
 #[kani::proof]
 #[kani::unwind(10)]
 fn c18_stack_swap_top() {
+    let mut d = 0;
+    while d <= 5 {
+        swap_case(d);
+        d += 1;
+    }
+    kani::cover!(d == 6);
+}
+
+fn swap_case(d: usize) {
     let vals: [U256; MAXV] = any_vals();
-    let d: usize = kani::any();
-    kani::assume(d <= 5);
     let i: usize = kani::any();
     kani::assume(i <= 6);
     let mut s = build(&vals, d);
@@ -216,64 +255,92 @@ fn c18_stack_swap_top() {
             drain_equals(&mut s, &vals, d);
         }
     }
-    kani::cover!(d == 5 && i == 4);
-    kani::cover!(d == 3 && i == 3);
-    kani::cover!(d == 3 && i == 0);
+    if d == 5 {
+        kani::cover!(i == 4 && vals[0].0[1] == 9);
+    }
+    if d == 3 {
+        kani::cover!(i == 3);
+        kani::cover!(i == 0);
+    }
 }
 
-/// `ensure_one` + `push` far below the limit: always Ok.
+/// `ensure_one` + `push_unchecked` far below the limit (depth 0..=4): always Ok, LIFO.
 #[kani::proof]
 #[kani::unwind(10)]
 fn c18_stack_ensure_one() {
-    let vals: [U256; MAXV] = any_vals();
-    let d: usize = kani::any();
-    kani::assume(d <= 4);
-    let mut s = build(&vals, d);
-    assert!(s.ensure_one().is_ok());
-    let x = any_u256();
-    s.push_unchecked(x);
-    assert!(s.len() == d + 1);
-    let t = s.pop();
-    assert!(t.is_ok() && eq(&t.unwrap(), &x));
-    drain_equals(&mut s, &vals, d);
-    kani::cover!(d == 4);
+    let mut d = 0;
+    while d <= 4 {
+        let vals: [U256; MAXV] = any_vals();
+        let mut s = build(&vals, d);
+        assert!(s.ensure_one().is_ok());
+        let x = any_u256();
+        s.push_unchecked(x);
+        assert!(s.len() == d + 1);
+        let t = s.pop();
+        assert!(t.is_ok() && eq(&t.unwrap(), &x));
+        drain_equals(&mut s, &vals, d);
+        d += 1;
+    }
+    kani::cover!(d == 5);
 }
 
-/// Yellow Paper 9.1 stack limit 1024: with 1022 + n (n symbolic in 0..=2) items on the stack,
-/// `push`, `ensure_one` and `dup(1)` succeed iff the depth is < 1024, report
-/// EVM_CONTRACT_STACK_OVERFLOW (37) otherwise and never grow the stack beyond 1024.
-/// Also crosses every Vec reallocation boundary (32 -> 64 -> ... -> 1024).
+/// Crossing the initial Vec capacity (INITIAL_STACK_SIZE = 32): 31 constant items, then
+/// symbolic pushes / dup across the reallocation; contents survive the move.
 #[kani::proof]
-#[kani::unwind(1030)]
-fn c18_stack_push_limit() {
-    assert!(STACK_SIZE == 1024);
+#[kani::unwind(40)]
+fn c18_stack_realloc() {
     let mut s = Stack::new();
     let mut i = 0;
-    while i < 1022 {
+    while i < 31 {
         s.push_unchecked(U256([i as u64, 0, 0, 0]));
         i += 1;
     }
-    let n: usize = kani::any();
-    kani::assume(n <= 2);
     let a = any_u256();
     let b = any_u256();
-    if n >= 1 {
-        assert!(s.push(a).is_ok());
-    }
-    if n >= 2 {
-        assert!(s.push(b).is_ok());
-    }
+    assert!(s.push(a).is_ok()); // 32 = capacity
+    assert!(s.dup(1).is_ok()); // 33: `reserve(1)` inside dup reallocates
+    assert!(s.push(b).is_ok()); // 34
+    assert!(s.swap_top(2).is_ok()); // b <-> a(original)
+    assert!(s.len() == 34);
+    let r = *s.pop_many::<3>().unwrap();
+    assert!(eq(&r[0], &b) && eq(&r[1], &a) && eq(&r[2], &a));
+    let t = s.pop().unwrap();
+    assert!(same(&t, [30, 0, 0, 0]));
+    assert!(s.len() == 30);
+    kani::cover!(a.0[3] != 0 && b.0[0] != a.0[0]);
+}
+
+/// Yellow Paper 9.1 stack limit 1024.  Filling a stack with 1023 real pushes is beyond CBMC
+/// (1022 x push_unchecked + unwind 1030: CBMC aborted at the 12 GB cap after 5 min), so the
+/// pre-filled stack is made from a `Vec<U256>` of capacity 1024 and length 1022 + n
+/// (n symbolic in 0..=2, contents nondeterministic) re-interpreted as `Stack` – `Stack` is a
+/// single-field struct around `Vec<U256>`; the harness asserts equal size and that `len()`
+/// reads back.  On that stack the REAL `push`, `ensure_one`, `dup(1)` must succeed iff the
+/// depth is < 1024, report EVM_CONTRACT_STACK_OVERFLOW (37) otherwise and never exceed 1024.
+#[kani::proof]
+#[kani::unwind(6)]
+fn c18_stack_push_limit() {
+    assert!(STACK_SIZE == 1024);
+    assert!(core::mem::size_of::<Stack>() == core::mem::size_of::<Vec<U256>>());
+    let n: usize = kani::any();
+    kani::assume(n <= 2);
     let d = 1022 + n;
+    let mut v: Vec<U256> = Vec::with_capacity(1024);
+    // SAFETY (harness only): U256 is plain-old-data; CBMC treats the fresh allocation as
+    // nondeterministic, i.e. arbitrary stack contents.
+    unsafe { v.set_len(d) };
+    let top = any_u256();
+    v[d - 1] = top;
+    let mut s: Stack = unsafe { core::mem::transmute::<Vec<U256>, Stack>(v) };
     assert!(s.len() == d);
     let full = d >= 1024;
-    // ensure_one
     match s.ensure_one() {
         Ok(()) => assert!(!full),
         Err(e) => assert!(full && e.exit_code() == EVM_CONTRACT_STACK_OVERFLOW && e.exit_code().value() == OVERFLOW),
     }
-    let which: u8 = kani::any();
+    let which: bool = kani::any();
     let x = any_u256();
-    if which == 0 {
+    if which {
         match s.push(x) {
             Ok(()) => {
                 assert!(!full && s.len() == d + 1);
@@ -289,8 +356,7 @@ fn c18_stack_push_limit() {
             Ok(()) => {
                 assert!(!full && s.len() == d + 1);
                 let t = s.pop();
-                let expect = if n == 0 { U256([1021, 0, 0, 0]) } else if n == 1 { a } else { b };
-                assert!(t.is_ok() && eq(&t.unwrap(), &expect));
+                assert!(t.is_ok() && eq(&t.unwrap(), &top));
             }
             Err(e) => {
                 assert!(full && e.exit_code() == EVM_CONTRACT_STACK_OVERFLOW && e.exit_code().value() == OVERFLOW);
@@ -298,11 +364,10 @@ fn c18_stack_push_limit() {
         }
     }
     assert!(s.len() == d && s.len() <= 1024);
-    // the top item is intact
     let t = s.pop();
-    let expect = if n == 0 { U256([1021, 0, 0, 0]) } else if n == 1 { a } else { b };
-    assert!(t.is_ok() && eq(&t.unwrap(), &expect));
-    kani::cover!(full && which == 0);
-    kani::cover!(full && which != 0);
-    kani::cover!(n == 1 && which != 0);
+    assert!(t.is_ok() && eq(&t.unwrap(), &top));
+    kani::cover!(full && which);
+    kani::cover!(full && !which);
+    kani::cover!(n == 1 && !which);
+    kani::cover!(n == 0 && which);
 }
